@@ -23,7 +23,7 @@ kanirun.DIRS.update({
     "C08": ["graph", "proto", "C08"],
     "C01": ["map", "C01"],
     "C02": ["map", "C02"],
-    "C13": ["map", "C13"],
+    "C13": ["map", "C07", "C13"],
     "C07": ["proto", "C07"],
     "C09": ["C10", "proto", "C09"],
     "C15": ["proto", "C15"],
